@@ -451,6 +451,49 @@ func c02R2(c *Ctx) {
 			}
 			c.Check(ret, name, p.InstrPos(cl), "persist-err", "persist error is the returned error", "the error of persist is not returned: a failed save would still be enqueued and sent")
 		}
+		if !found && containsFn(r.persist, fn) {
+			// the persist step is written out inside the numbering function itself
+			for _, cl := range r.storeCalls(fn, "SaveMessageAndIncrNextSenderMsgSeqNum") {
+				found = true
+				args := cl.Common().Args
+				ok := len(args) == 2 &&
+					p.Origin(args[0]).All(func(x *Org) bool { return x.IsCallTo("(MessageStore).NextSenderMsgSeqNum") }) &&
+					p.Origin(args[1]).All(func(x *Org) bool { ff, _ := p.builders(); return x.Kind == "call" && x.Callee == ff })
+				stamped := map[ssa.Instruction]bool{}
+				for _, st := range p.setTagCalls(fn, r.tagSeq) {
+					for _, o := range flattenAlts(p.Origin(st.val)) {
+						if o.CallI != nil {
+							stamped[o.CallI] = true
+						}
+					}
+				}
+				sameVal := len(args) > 0
+				if len(args) > 0 {
+					for _, o := range flattenAlts(p.Origin(args[0])) {
+						if o.CallI == nil || !stamped[o.CallI] {
+							sameVal = false
+						}
+					}
+				}
+				c.Check(ok && sameVal, name, p.InstrPos(cl), "persist-args", "store.SaveMessageAndIncr(seqNum stamped, bytes built)",
+					"the store is given ("+argStr(p, args)+"): the persisted number/bytes are not the stamped number and the bytes built from the stamped message")
+				ret := false
+				ForEachInstr(fn, func(in ssa.Instruction) {
+					if rt, ok := in.(*ssa.Return); ok {
+						for _, res := range rt.Results {
+							if p.Origin(res).Any(func(x *Org) bool { return x.Kind == "call" && x.CallI == cl.(ssa.Instruction) }) {
+								ret = true
+							}
+						}
+					}
+				})
+				c.Check(ret, name, p.InstrPos(cl), "persist-err", "the store's error is the returned error", "the error of the save is not returned: a failed save would still be enqueued and sent")
+			}
+			for _, cl := range r.storeCalls(fn, "IncrNextSenderMsgSeqNum") {
+				found = true
+				c.OK(name, p.InstrPos(cl), "increment without persistence (persistence disabled)")
+			}
+		}
 		if !found {
 			c.Violation(name, p.Pos(fn.Pos()), "no-persist", "numbering function does not call the persist role")
 		}
@@ -458,6 +501,22 @@ func c02R2(c *Ctx) {
 	// (d) persist role: exactly one of SaveAndIncr / Incr per path, parameters passed through
 	for _, fn := range r.persist {
 		name := FuncName(fn)
+		if containsFn(r.prep, fn) {
+			// written out inside the numbering function: every success return has advanced the number
+			mf := &MustFlow{Fn: fn, Transfer: func(in ssa.Instruction, st Set) {
+				if _, ok := r.isStoreCall(in, "SaveMessageAndIncrNextSenderMsgSeqNum", "IncrNextSenderMsgSeqNum"); ok {
+					st["advanced"] = true
+				}
+			}}
+			okAdv := true
+			for rt, st := range mf.AtReturns() {
+				if p.Origin(rt.Results[len(rt.Results)-1]).IsNil() && !st["advanced"] {
+					okAdv = false
+				}
+			}
+			c.Check(okAdv, name, p.Pos(fn.Pos()), "persist-once", "every success return has advanced the outbound number", "a path returns success without having advanced the outbound number")
+			continue
+		}
 		okPaths := true
 		n := 0
 		full := EnumPaths(fn, 256, func(pa Path) {
